@@ -89,6 +89,14 @@ func C11(c *Ctx) {
 	}
 	progs = append(progs, cases.Opt()...)
 	progs = append(progs, cases.Edge()...)
+	// the edge cases (names, imports, type positions) also each in a file of its own: conditions that hold per
+	// FILE (is a name used anywhere, is a package imported already) are masked by the other programs of a batch
+	for _, p := range cases.Edge() {
+		q := *p
+		q.Name += "+alone"
+		q.Isolate = true
+		progs = append(progs, &q)
+	}
 	progs = append(progs, cases.Deleg()...)
 	progs = append(progs, cases.Consumer()...)
 	progs = append(progs, genr.Deleg(ndeleg, c.Seed+7)...)
